@@ -60,7 +60,9 @@ def generate(rng, tier):
                 elif r < 11: tg.append(F[int(rng.integers(0, 3))])
                 else: tg.append(['furlong', 'jansky'][int(rng.integers(0, 2))])
             if rng.integers(0, 4) == 0: tg = [x.upper() if rng.integers(0, 2) else x for x in tg]
-            out.append({'kind': 'to', 'wave': wave, 'value': value, 'wu': wu, 'vu': vu, 'units': tg, 'back': bool(rng.integers(0, 2))})
+            dt = ['float', 'float', 'int64', 'int32'][int(rng.integers(0, 4))]      # integer-stored flux samples / counts
+            if dt != 'float': value = [float(int(v) + 1) for v in value]
+            out.append({'kind': 'to', 'wave': wave, 'value': value, 'wu': wu, 'vu': vu, 'units': tg, 'back': bool(rng.integers(0, 2)), 'dtype': dt})
         elif t == 3:
             out.append({'kind': 'planck', 'temp': float(int(rng.integers(200, 12000))), 'wu': W[int(rng.integers(0, 4))], 'vu': F[int(rng.integers(0, 3))],
                         'wave_nm': [float(int(x)) for x in sorted(rng.choice(np.arange(150, 30000), 4, replace=False))], 'alias': bool(rng.integers(0, 2))})
@@ -72,7 +74,7 @@ def generate(rng, tier):
 def signature(c):
     k = c['kind']
     if k in ('wave', 'flux'): return f"{k} {c['a']} {c['b']} {c['c']}"
-    if k == 'to': return f"to {c['wu']} {c['vu']} {c['units']} n={len(c['wave'])} {c['wave'][0]} {c['value'][0]}"
+    if k == 'to': return f"to {c.get('dtype')} {c['wu']} {c['vu']} {c['units']} n={len(c['wave'])} {c['wave'][0]} {c['value'][0]}"
     if k == 'planck': return f"planck {c['temp']} {c['wu']} {c['vu']}"
     if k == 'laws': return f"laws {c['temp']}"
     return f"vega {c['band']} {c['wu']} {c['vu']}"
@@ -86,7 +88,7 @@ def nontrivial(c):
 def tags(c):
     t = [c['kind']]
     if c['kind'] == 'to':
-        t.append('to:' + ('unitless' if c['vu'] is None else 'density'))
+        t.append('to:' + ('unitless' if c['vu'] is None else 'density')); t.append('to:dtype=' + c.get('dtype', 'float'))
         for u in c['units']:
             t.append('to:target:' + ('wave' if u.lower() in W else 'flux' if u.lower() in F else 'unknown'))
     return t
@@ -111,7 +113,7 @@ def impl(c):
         return {'ab': ab, 'abc': float(R.Unit(b).to(ab, cc, w)), 'ac': float(R.Unit(a).to(f, cc, w)), 'aba': float(R.Unit(b).to(ab, a, w)),
                 'aa': float(R.Unit(a).to(f, a, w)), 'H': R.H, 'C': R.C}
     if k == 'to':
-        s = R.Spectrum(np.array(c['wave']), np.array(c['value']), waveunit=c['wu'], valueunit=c['vu'])
+        s = R.Spectrum(np.array(c['wave']), np.array(c['value']).astype({'int64': np.int64, 'int32': np.int32}.get(c.get('dtype'), float)), waveunit=c['wu'], valueunit=c['vu'])
         i0 = float(np.trapz(s.value, s.wave))
         exc = None
         try:
